@@ -63,10 +63,10 @@ MCPublish(s, b, fails, how) ==
   /\ nPub' = nPub + Len(b) /\ nFail' = (IF fails # {} THEN nFail + 1 ELSE nFail) /\ Tick
   /\ UNCHANGED <<nRestart, nTamper, nEnv, nPause, nSub>>
 
-MCSubscribe(s, from) ==
+MCSubscribe(s, from, rev) ==
   /\ nSub < MaxSub
-  /\ DoSubscribe(s, from)
-  /\ last' = [a |-> "Subscribe", s |-> s, from |-> from]
+  /\ DoSubscribe(s, from, rev)
+  /\ last' = [a |-> "Subscribe", s |-> s, from |-> from, rev |-> rev]
   /\ nSub' = nSub + 1 /\ Tick /\ UNCHANGED <<nPub, nFail, nRestart, nTamper, nEnv, nPause>>
 
 MCPause(s) ==
@@ -111,7 +111,7 @@ MCNext ==
   \/ (TableOn /\ last.a = "Open") /\ \E m \in MKLens : MCNew(m)
   \/ (Step /\ up /\ nPub < MaxPub) /\ \E s \in Streams, b \in Batches, how \in Hows :
         \E fails \in SUBSET (1..Len(b)) : MCPublish(s, b, fails, how)
-  \/ (Step /\ up) /\ \E s \in Streams : \E from \in 0..(Len(log[s]) - 1) : MCSubscribe(s, from)
+  \/ (Step /\ up) /\ \E s \in Streams : \E from \in 0..(Len(log[s]) - 1), rev \in BOOLEAN : MCSubscribe(s, from, rev)
   \/ (Step /\ up) /\ \E s \in Streams : MCPause(s)
   \/ (Step /\ up) /\ \E s \in Streams : MCResume(s)
   \/ Step /\ \E k \in Keys \cup {"bad"} : MCSetEnv(k)
@@ -126,7 +126,7 @@ StepOK ==
   CASE a.a = "Read" -> P_Read(obs'.out, a.c)
     [] a.a = "Seal" -> P_Seal(obs'.s, a.n)
     [] a.a = "Publish" -> P_Publish(a.s, a.vals, a.fails)
-    [] a.a = "Subscribe" -> P_Subscribe(a.s, a.from)
+    [] a.a = "Subscribe" -> P_Subscribe(a.s, a.from, a.rev)
     [] a.a = "Tamper" -> P_Tamper(a.j)
     [] a.a \in {"Pause", "Resume", "SetEnv", "Restart", "CreateProbe"} -> P_Quiet
     [] OTHER -> TRUE
